@@ -141,6 +141,10 @@ func init() {
 	mut("C27", "genesis-supply-unchecked", "genesis/genesis.go", "\t\tsupply, err = safemath.Add(supply, alloc.Balance)\n\t\tif err != nil {\n\t\t\treturn err\n\t\t}", "\t\tsupply, err = safemath.Add(supply, alloc.Balance)\n\t\tif err != nil {\n\t\t\tsupply = 0\n\t\t}", "total supply may wrap")
 	mut("C27", "genesis-credit-error-ignored", "genesis/genesis.go", "\t\tif err := balanceHandler.AddBalance(ctx, alloc.Address, mu, alloc.Balance); err != nil {\n\t\t\treturn fmt.Errorf(\"%w: addr=%s, bal=%d\", err, alloc.Address, alloc.Balance)\n\t\t}", "\t\tif err := balanceHandler.AddBalance(ctx, alloc.Address, mu, alloc.Balance); err != nil {\n\t\t\t_ = fmt.Errorf(\"%w: addr=%s, bal=%d\", err, alloc.Address, alloc.Balance)\n\t\t}", "allocation silently missing")
 	mp := "internal/mempool/mempool.go"
+	mut("C23", "revert-fix-front-order", mp, "\t\t\titem = items[len(items)-1-i]", "\t\t\titem = items[i]", "restored block reversed")
+	mut("C23", "revert-fix-prefetched-after-given", mp, "\t\tm.nextStreamFetched = false\n\t}\n\tm.add(restorable, true)\n\tm.streamLock.Unlock()", "\t\tm.nextStreamFetched = false\n\t}\n\tm.streamLock.Unlock()", "given-back items dropped / wrong order")
+	mut("C23", "revert-fix-lock-order", mp, "\tm.streamLock.Lock()\n\n\tm.mu.Lock()\n\tdefer m.mu.Unlock()\n\n\tm.streamedItems", "\tm.mu.Lock()\n\tdefer m.mu.Unlock()\n\n\tm.streamLock.Lock()\n\tm.streamedItems", "StartStreaming waits for the stream lock holding mu")
+	mut("C23", "revert-fix-late-prepare", mp, "\tif m.streamedItems == nil {\n\t\treturn\n\t}\n\tm.nextStream = m.streamItems(count)", "\tm.nextStream = m.streamItems(count)", "prefetch outside a stream pops items")
 	mut("C23", "sponsor-limit-off", mp, "\t\tif m.owned[sender] == m.maxSponsorSize {\n\t\t\tcontinue // do nothing, wait for items to expire\n\t\t}", "\t\tif m.owned[sender] > m.maxSponsorSize {\n\t\t\tcontinue // do nothing, wait for items to expire\n\t\t}", "sponsor may hold more than its limit")
 	mut("C23", "size-limit-off", mp, "\t\tif m.queue.Size() == m.maxSize {", "\t\tif m.queue.Size() > m.maxSize {", "mempool may exceed its capacity")
 	mut("C23", "duplicate-admitted", mp, "\t\tif m.eh.Has(itemID) {\n\t\t\t// Don't drop because already exists\n\t\t\tcontinue\n\t\t}", "", "same transaction queued twice")
